@@ -761,6 +761,7 @@ func extractC12() *lean {
 	l.def("mappingPathFormats", "List String", leanStrList(fmtPaths), fmtPaths)
 	l.def("singleMappingPaths", "List String", leanStrList(rewrite), rewrite)
 	c12ConsumerFacts(l)
+	c12EnvelopeFacts(l)
 	return l
 }
 
